@@ -163,7 +163,7 @@ theorem closeStateStep_JP (s : S) : JP s (closeStateStep s).1 := by
   unfold closeStateStep
   split
   · rename_i hc
-    have h : (afterCloseHandshake { s with tCloseHs := none, wasClean := true } true).1.closeSent ≠ [] := by
+    have h : (afterCloseHandshake { s with tCloseHs := none, wasClean := true } s.sendQueue.isEmpty).1.closeSent ≠ [] := by
       rw [afterCloseHandshake_closeSent]; exact j.1 hc
     exact ⟨fun _ => h, fun _ => h⟩
   · rename_i ho
